@@ -405,6 +405,38 @@ def obligations(tier):
     out.append(Obl("collections_ctor", collections_ctor(), dict(i=int), lambda i: 0 <= i and i < N_COLL, budget=120, cost=5,
                    desc="empty/duplicate children, two primary flags, empty/overlapping variants, half-specified bounds, invalid queries, absent UTR/CDS/sequence: "
                         "value or documented refusal", bounds="%d cases" % N_COLL, examples=[dict(i=0)]))
+    def query_range():
+        from inscripta.biocantor.exc import InvalidQueryError
+        from inscripta.biocantor.gene.collections import AnnotationCollection
+        from inscripta.biocantor.gene.gene import GeneInterval
+        from inscripta.biocantor.gene.transcript import TranscriptInterval
+
+        def fn(lo, hi, s, l, qs, qe, within):
+            tx = TranscriptInterval([s], [s + l], PLUS, guid=600)
+            coll = AnnotationCollection(genes=[GeneInterval([tx], guid=700)], sequence_name="chr1", start=lo, end=hi)
+            valid = AND(0 <= qs, qs < qe, lo <= qs, qe <= hi)
+            try:
+                res = coll.query_by_position(qs, qe, completely_within=within)
+            except InvalidQueryError:
+                return NOT(valid)
+            # answered: the range was a valid sub-range of the collection, and the answer carries exactly that range
+            return AND(valid, res.start == qs, res.end == qe, res.start >= coll.start, res.end <= coll.end)
+
+        return fn
+
+    out.append(Obl("query_range_refused", query_range(), dict(lo=int, hi=int, s=int, l=int, qs=int, qe=int, within=bool),
+                   lambda lo, hi, s, l, qs, qe, within: 0 <= lo and lo <= s and l >= 1 and s + l <= hi, budget=400, cost=30, stubs=dict(bins="contract"),
+                   desc="query_by_position with UNCONSTRAINED integer range (zero, negative, inverted, empty, outside the collection bounds): InvalidQueryError "
+                        "unless 0 <= start < end within the collection bounds; an answered query carries exactly the requested range",
+                   bounds="1-gene collection with symbolic bounds, all integers for the range, both modes",
+                   examples=[dict(lo=10, hi=40, s=12, l=5, qs=11, qe=22, within=True), dict(lo=10, hi=40, s=12, l=5, qs=5, qe=22, within=False)]))
+    from harness.c13 import overlap_refused_k3
+
+    out.append(Obl("variant_collection_ctor_k3", overlap_refused_k3(), dict(v1s=int, v1l=int, v2s=int, v2l=int, v3s=int, v3l=int),
+                   lambda v1s, v1l, v2s, v2l, v3s, v3l: v1s >= 0 and v2s >= 0 and v3s >= 0 and v1l >= 1 and v2l >= 1 and v3l >= 1, budget=400, cost=30,
+                   desc="VariantIntervalCollection of three variants given in any order: refused (LocationOverlapException) exactly when some pair overlaps, "
+                        "never a collection violating the no-overlap invariant", bounds="unbounded symbolic coordinates, every input order",
+                   examples=[dict(v1s=10, v1l=3, v2s=12, v2l=1, v3s=20, v3l=1), dict(v1s=10, v1l=3, v2s=20, v2l=1, v3s=14, v3l=1)]))
     from harness.c03 import append_fn
 
     for s1 in (PLUS, MINUS):
